@@ -397,6 +397,134 @@ func c15(c *an.Ctx) {
 
 // seededFromData: the rand call is a method on a generator created by
 // rand.New(rand.NewSource(<expr without time>)) in the same function.
+func init() {
+	old := All["C15"].Run
+	All["C15"].Run = func(c *an.Ctx) {
+		old(c)
+		c15snapshotLoops(c)
+	}
+	All["C15"].Rules += " R6 R7"
+}
+
+// frozen: loops of marshal functions that legitimately skip elements
+var c15MarshalSkips = map[string]string{}
+
+// frozen: clone helpers that legitimately share a reference-typed element
+var c15CloneShares = map[string]string{
+	"lib/util/lifted/influx/meta:(*MeasurementInfo).CloneShardIdexes: shardIdexes[name] = info": "the []int values are never modified in place: every writer installs a new slice (mapShards in CreateShardGroup/expand, unmarshal fills a fresh one)",
+}
+
+// c15snapshotLoops: the snapshot is Marshal(Clone(data)).
+//   R6  a marshal loop over a member of the catalogue copies EVERY element: an
+//       element that is filtered out of the snapshot (but kept by a replica that
+//       applied the log) makes restored and log-applying replicas diverge.
+//   R7  a clone loop never stores the source's own slice/map/pointer element in
+//       the copy (directly or re-sliced): commands applied after Snapshot() edit
+//       such elements in place and would leak into a snapshot labelled with an
+//       older index.
+func c15snapshotLoops(c *an.Ctx) {
+	const M = metaPkg
+	r6 := c.Rule("C15.R6", "K-LOOPSELECT", M+": marshal loops over catalogue members copy every element (no continue/break/filter)")
+	r7 := c.Rule("C15.R7", "K-ALIAS", M+": clone loops store fresh copies, never the source's own slice / map / pointer elements")
+	n6, n7 := 0, 0
+	for _, d := range c.P.AllDecls() {
+		if !an.InPkg(d, M) {
+			continue
+		}
+		name := d.Obj.Name()
+		isMarshal := name == "Marshal" || name == "marshal" || strings.HasPrefix(name, "Marshal") || strings.HasPrefix(name, "marshal")
+		isClone := strings.HasPrefix(name, "Clone") || strings.HasPrefix(name, "clone")
+		if !isMarshal && !isClone {
+			continue
+		}
+		f := c.P.Fn(d)
+		if f == nil {
+			continue
+		}
+		ast.Inspect(d.Decl.Body, func(m ast.Node) bool {
+			rs, ok := m.(*ast.RangeStmt)
+			if !ok {
+				return true
+			}
+			if isMarshal {
+				n6++
+				// branch statements that belong to this loop
+				var walk func(n ast.Node, depth int)
+				walk = func(n ast.Node, depth int) {
+					ast.Inspect(n, func(k ast.Node) bool {
+						switch x := k.(type) {
+						case *ast.FuncLit:
+							return false
+						case *ast.RangeStmt:
+							if x != rs {
+								walk(x.Body, depth+1)
+								return false
+							}
+						case *ast.ForStmt:
+							walk(x.Body, depth+1)
+							return false
+						case *ast.BranchStmt:
+							if depth == 0 && (x.Tok.String() == "continue" || x.Tok.String() == "break") {
+								key := d.Name() + ": " + x.Tok.String() + " in loop over " + types.ExprString(rs.X)
+								if why, ok := c15MarshalSkips[key]; ok {
+									r6.Except(key, why)
+								} else {
+									r6.Fail(key, c.P.Pos(x.Pos()), "%s leaves out elements of %s (%s): the snapshot then differs from the state of a replica that applied the log", d.Name(), types.ExprString(rs.X), x.Tok)
+								}
+							}
+						}
+						return true
+					})
+				}
+				walk(rs.Body, 0)
+			}
+			if isClone && rs.Value != nil {
+				vid, ok := rs.Value.(*ast.Ident)
+				if !ok {
+					return true
+				}
+				vo := f.Info.ObjectOf(vid)
+				if vo == nil || !an.IsRefType(vo.Type()) {
+					return true
+				}
+				n7++
+				ast.Inspect(rs.Body, func(k ast.Node) bool {
+					as, ok := k.(*ast.AssignStmt)
+					if !ok {
+						return true
+					}
+					for i, rhs := range as.Rhs {
+						if i >= len(as.Lhs) {
+							break
+						}
+						if _, isIx := as.Lhs[i].(*ast.IndexExpr); !isIx {
+							continue
+						}
+						e := ast.Unparen(rhs)
+						if se, ok := e.(*ast.SliceExpr); ok {
+							e = ast.Unparen(se.X)
+						}
+						if id, ok := e.(*ast.Ident); ok && f.Info.Uses[id] == vo {
+							key := d.Name() + ": " + types.ExprString(as.Lhs[i]) + " = " + types.ExprString(rhs)
+							if why, ok := c15CloneShares[key]; ok {
+								r7.Except(key, why)
+							} else {
+								r7.Fail(key, c.P.Pos(as.Pos()), "%s stores the source's own %s (%s) in the copy: an in-place update of the live catalogue after Snapshot() shows up in the snapshot", d.Name(), vo.Type().String(), types.ExprString(rhs))
+							}
+						}
+					}
+					return true
+				})
+			}
+			return true
+		})
+	}
+	r6.AddSites(n6)
+	r7.AddSites(n7)
+	r6.Floor(20, "loops in marshal functions of the catalogue")
+	r7.Floor(5, "clone loops over reference-typed elements")
+}
+
 func seededFromData(f *an.Fn, ce *ast.CallExpr) bool {
 	sel, ok := ce.Fun.(*ast.SelectorExpr)
 	if !ok {
